@@ -412,6 +412,7 @@ func c15(c *ctx) {
 			}
 		}
 	}()
+	limitPrefix := 0 // limit checks: bytes in front of the frame that must be refused
 	call := func(key, kind, ename string, f func([]byte, *budgetReader) error, in []byte, opsDesc string, allocCheck bool, limitCheck bool, limit int64) {
 		if !vh.Only(key) {
 			return
@@ -452,8 +453,8 @@ func c15(c *ctx) {
 		}
 		pulled := 0
 		if limitCheck {
-			_, hn, _ := vh.OwnDecode(in)
-			pulled = src.Pos - hn
+			_, hn, _ := vh.OwnDecode(in[limitPrefix:])
+			pulled = src.Pos - hn - limitPrefix
 			if pulled < 0 {
 				pulled = 0
 			}
@@ -610,6 +611,56 @@ func c15(c *ctx) {
 							_, err := io.Copy(io.Discard, rd)
 							return err
 						}, in, "limit:"+name, false, true, 1000)
+						// the same frame later in the stream: as a continuation of an in-limit first fragment
+						// (with or without a ping in between), or as the message after a complete one
+						for pi, pre := range [][]byte{
+							vh.BuildFrame(op, false, 0, masked, [4]byte{1, 2, 3, 4}, []byte("0123456789")),
+							append(vh.BuildFrame(op, false, 0, masked, [4]byte{1, 2, 3, 4}, []byte("0123456789")), vh.BuildFrame(9, true, 0, masked, [4]byte{5, 6, 7, 8}, []byte("pp"))...),
+							append(vh.BuildFrame(op, false, 0, masked, [4]byte{1, 2, 3, 4}, []byte("01")), vh.BuildFrame(0, false, 0, masked, [4]byte{5, 6, 7, 8}, nil)...),
+							vh.BuildFrame(op, true, 0, masked, [4]byte{1, 2, 3, 4}, []byte("0123456789")),
+						} {
+							h2 := vh.H{Fin: true, Op: 0, Masked: masked, Mask: []int{1, 2, 3, 4}, N: v}
+							if pi == 3 {
+								h2.Op = op
+							}
+							in2 := append(append(append([]byte{}, pre...), vh.OwnEncode(h2)...), make([]byte, extra)...)
+							for _, how := range []string{"read", "discard", "nextframe"} {
+								limitPrefix = len(pre)
+								call(fmt.Sprintf("limitlater/%s/%v/%d/%d/%d/%s", name, masked, op, extra, pi, how), "frames", "MaxFrameSize", func(in []byte, s *budgetReader) error {
+									st := ws.StateClientSide
+									if masked {
+										st = ws.StateServerSide
+									}
+									rd := &wsutil.Reader{Source: s, State: st, MaxFrameSize: 1000}
+									for i := 0; i < 6; i++ {
+										if _, err := rd.NextFrame(); err != nil {
+											return err
+										}
+										switch how {
+										case "read":
+											if _, err := io.Copy(io.Discard, rd); err != nil {
+												return err
+											}
+										case "discard":
+											if err := rd.Discard(); err != nil {
+												return err
+											}
+										default:
+											var b [16]byte
+											for {
+												if _, err := rd.Read(b[:]); err == io.EOF {
+													break
+												} else if err != nil {
+													return err
+												}
+											}
+										}
+									}
+									return nil
+								}, in2, "limitlater:"+name, false, true, 1000)
+								limitPrefix = 0
+							}
+						}
 					}
 				}
 			}
